@@ -127,6 +127,13 @@ def run(F, rep):
         c = a.get('c', [])
         if a.get('k') == 'Bin' and a.get('op') == '=' and c and render(c[0]).endswith('mModel->mPimpl->mType') and am.enclosing_lambda(a) is None:
             facts = {sem(t, tr) for t, tr in (ff(am).rendered_conds_at(a) or set())} - {None}
+            # propositional closure: `!(under && over)` and `under` give `not over`, however the if/else chain is written
+            from engines import implied_literals
+
+            def _atom(n_):
+                s_ = sem(render(n_), True)
+                return s_[0] if s_ and s_[1] is True else None
+            facts |= set((implied_literals(am, a, _atom) or {}).items())
             rhs = c[1]
             if rhs.get('k') == 'Cond':
                 cc = rhs['c']
@@ -214,15 +221,26 @@ def run(F, rep):
     ivf = F.fn1('Analyser::AnalyserImpl::internalVariable')
     cr = [c for c in ivf.walk() if c.get('k') == 'Call' and c.get('fn') == 'create']
     lp = [l for l in ivf.walk() if l.get('k') in ('RangeFor', 'For', 'While')]
-    if len(cr) != 1 or len(lp) != 1:
-        raise AnalysisBroken('internalVariable: create/search loop vanished')
-    l = lp[0]
-    rng = render(l['c'][1]) if l.get('k') == 'RangeFor' else render(role(l, 'cond'))
-    eqv = [c for c in walk(l) if c.get('k') == 'Call' and c.get('fn') == 'areEquivalentVariables']
-    rets = [r for r in walk(l) if r.get('k') == 'Return']
-    early = [x for x in walk(l) if x.get('k') in ('Break', 'Goto')]
+    alg = [c for c in ivf.walk() if c.get('k') == 'Call' and c.get('callee') in ('std::find_if', 'std::any_of', 'std::none_of') and 'mInternalVariables' in render(c)]
+    if len(cr) != 1 or len(lp) + len(alg) != 1:
+        raise AnalysisBroken('internalVariable: create/search vanished (%d creations, %d loops, %d algorithm calls)' % (len(cr), len(lp), len(alg)))
     cfgv = ivf.cfg()
-    rep.check('mInternalVariables' in rng and len(eqv) == 1 and render(nth_arg(eqv[0], 0)) == ivf.params[0]['n'] and rets and not early and cfgv.node_dominates(l['c'][1] if l.get('k') == 'RangeFor' else role(l, 'cond'), cr[0]),
+    if lp:
+        l = lp[0]
+        rng = render(l['c'][1]) if l.get('k') == 'RangeFor' else render(role(l, 'cond'))
+        eqv = [c for c in walk(l) if c.get('k') == 'Call' and c.get('fn') == 'areEquivalentVariables']
+        rets = [r for r in walk(l) if r.get('k') == 'Return']
+        early = [x for x in walk(l) if x.get('k') in ('Break', 'Goto')]
+        complete = 'mInternalVariables' in rng and bool(rets) and not early and cfgv.node_dominates(l['c'][1] if l.get('k') == 'RangeFor' else role(l, 'cond'), cr[0])
+    else:
+        # the same search written with an algorithm: find_if over the whole of mInternalVariables with a predicate that asks areEquivalentVariables, the creation only where nothing was found
+        a = alg[0]
+        rng = 'mInternalVariables'
+        eqv = [c for c in walk(a) if c.get('k') == 'Call' and c.get('fn') == 'areEquivalentVariables']
+        whole = any(x.get('k') == 'Call' and x.get('fn') in ('begin', 'cbegin') for x in walk(a)) and any(x.get('k') == 'Call' and x.get('fn') in ('end', 'cend') for x in walk(a))
+        rets = [r for r in ivf.walk() if r.get('k') == 'Return' and ivf.enclosing_lambda(r) is None and r is not None]
+        complete = whole and cfgv.node_dominates(a, cr[0]) and any(('.end()' in c and ((('!=' in c) and not t) or (('==' in c) and t))) for c, t in (ff(ivf).rendered_conds_at(cr[0]) or set()))
+    rep.check(complete and len(eqv) == 1 and render(nth_arg(eqv[0], 0)) == ivf.params[0]['n'],
               'C05.U1', 'search-before-create', ivf.where(cr[0]), 'the creation is not preceded by a complete search over mInternalVariables for a variable equivalent to `%s`' % ivf.params[0]['n'], 'created only after the search over %s failed' % rng)
     pb = [c for c in ivf.walk() if c.get('k') == 'Call' and c.get('fn') in ('push_back', 'emplace_back') and 'mInternalVariables' in render(receiver(c))]
     rep.check(bool(pb) and must_pass(cfgv, cr[0], [p['i'] for p in pb]), 'C05.U1', 'recorded', ivf.where(cr[0]), 'a created internal variable is not added to mInternalVariables on every path: the next lookup creates a second one for the same class', 'pushed to mInternalVariables')
